@@ -48,3 +48,36 @@ func VPH_regexpAnchor() {
 	vp_KnownRegionEnd("KF-d")
 	vp_Reach("end")
 }
+
+// VPH_regexpConcrete: the same statement on concrete subjects (all strings over
+// {a, b, /} up to the bound), for which any regexp API the implementation may
+// use is executed natively. Complements the symbolic-subject harness.
+func VPH_regexpConcrete() {
+	plen := 1 + vp_Choice("plen", vp_Param("pmax"))
+	idx := vp_Choice("pattern", vpPow(len(vpRxAlphabet), plen))
+	pat := vpPattern(idx, plen)
+	if !vp_RegexpCompiles(pat) {
+		vp_Reach("not-a-regexp")
+		return
+	}
+	f, err := RegexpFilter(pat)
+	vp_Assert(err == nil, "a valid regexp is accepted")
+	if err != nil {
+		return
+	}
+	smax := vp_Param("smax")
+	subjects := []string{""}
+	for l, lo := 0, 0; l < smax; l++ {
+		hi := len(subjects)
+		for i := lo; i < hi; i++ {
+			for _, c := range "ab/" {
+				subjects = append(subjects, subjects[i]+string(c))
+			}
+		}
+		lo = hi
+	}
+	for _, s := range subjects {
+		vp_Assert(f.Filter(s) == vp_RegexpFullMatch(pat, s), "/REGEXP/ selects exactly the names it matches entirely")
+	}
+	vp_Reach("end")
+}
